@@ -199,16 +199,37 @@ def _twins():
     write equal-comparing but differently encoded leaves: a cache keyed by name or by value shows up as a history"""
     L = []
     suit1 = {"type": "record", "name": "game.Card", "fields": [{"name": "s", "type": {"type": "enum", "name": "game.Suit", "symbols": ["SPADES", "HEARTS", "CLUBS"]}},
-                                                                 {"name": "n", "type": "int"}]}
+                                                                 {"name": "n", "type": "int"}, {"name": "s2", "type": "game.Suit"},
+                                                                 {"name": "ss", "type": {"type": "array", "items": "game.Suit"}}]}
     suit2 = {"type": "record", "name": "game.Card", "fields": [{"name": "n", "type": "int"},
-                                                                 {"name": "s", "type": {"type": "enum", "name": "game.Suit", "symbols": ["CLUBS", "JOKER", "HEARTS", "SPADES"]}}]}
+                                                                 {"name": "s", "type": {"type": "enum", "name": "game.Suit", "symbols": ["CLUBS", "JOKER", "HEARTS", "SPADES"]}},
+                                                                 {"name": "ss", "type": {"type": "array", "items": "game.Suit"}}, {"name": "s2", "type": "game.Suit"}]}
     for nm, sch in (("enum_v1", suit1), ("enum_v2", suit2)):
-        su, fn = _mk_write(sch, {"s": "SPADES", "n": 5})
+        su, fn = _mk_write(sch, {"s": "SPADES", "n": 5, "s2": "HEARTS", "ss": ["CLUBS", "SPADES"]})
         L.append(Op("write_" + nm, su, fn, "same type names, different definitions"))
-        su, fn = _mk_read(sch, {"s": "HEARTS", "n": -5})
+        su, fn = _mk_read(sch, {"s": "HEARTS", "n": -5, "s2": "SPADES", "ss": ["HEARTS"]})
         L.append(Op("read_" + nm, su, fn))
-        su, fn = _mk_validate(sch, [{"s": "JOKER", "n": 1}, {"s": "CLUBS", "n": 1}])
+        su, fn = _mk_validate(sch, [{"s": "JOKER", "n": 1, "s2": "JOKER", "ss": []}, {"s": "CLUBS", "n": 1, "s2": "CLUBS", "ss": ["CLUBS"]}])
         L.append(Op("validate_" + nm, su, fn))
+        su, fn = _mk_container(sch, [{"s": "HEARTS", "n": 1, "s2": "SPADES", "ss": ["HEARTS", "CLUBS"]}] * 2, "null")
+        L.append(Op("container_" + nm, su, fn))
+        su, fn = _mk_json(sch, {"s": "SPADES", "n": 5, "s2": "HEARTS", "ss": ["CLUBS"]})
+        L.append(Op("json_" + nm, su, fn))
+    # JSON text omitting fields whose defaults are nested containers (the decoder consumes what it is given)
+    jd = {"type": "record", "name": "Jd", "fields": [
+        {"name": "k", "type": "int"},
+        {"name": "grid", "type": {"type": "array", "items": {"type": "array", "items": "int"}}, "default": [[1, 2], [3]]},
+        {"name": "idx", "type": {"type": "map", "values": {"type": "array", "items": "string"}}, "default": {"a": ["x", "y"]}},
+        {"name": "u", "type": ["null", "int"], "default": None}]}
+
+    def jd_setup():
+        return dict(schema=_real_parse(jd))
+
+    def jd_fn(world, ctx):
+        JR = world.mod("fastavro.json_read")
+        text = '{"k": 1}\n{"k": 2}'
+        return repr(list(JR.json_reader(io.StringIO(text), ctx["schema"]))), repr(list(JR.json_reader(io.StringIO(text), ctx["schema"])))
+    L.append(Op("json_nested_defaults", jd_setup, jd_fn, "absent JSON fields with nested-container defaults, read twice"))
     fl = {"type": "record", "name": "Fl", "fields": [{"name": "f", "type": "float"}, {"name": "d", "type": "double"}, {"name": "l", "type": "long"}]}
     for nm, d in (("zeros_pos", {"f": 0.0, "d": 0.0, "l": 0}), ("zeros_neg", {"f": -0.0, "d": -0.0, "l": 0}), ("ints_as_floats", {"f": 0, "d": 1, "l": 1})):
         su, fn = _mk_write(fl, d)
@@ -216,8 +237,27 @@ def _twins():
     return L
 
 
+def _mk_container_meta():
+    """two files written with one user metadata dictionary and different codecs"""
+    def setup():
+        return dict(schema=_real_parse(REC_W), meta={"owner": "me"})
+
+    def fn(world, ctx):
+        W, R = world.mod("fastavro._write_py"), world.mod("fastavro._read_py")
+        out = []
+        for codec in ("deflate", "null"):
+            fo = io.BytesIO()
+            W.writer(fo, ctx["schema"], [REC_D, REC_D2], codec=codec, metadata=ctx["meta"], sync_marker=b"0123456789abcdef")
+            rd = R.reader(io.BytesIO(fo.getvalue()))
+            out.append((codec, rd.codec, rd.metadata.get("owner"), repr(list(rd))))
+        return out
+    return setup, fn
+
+
 def _all_ops():
     L = _ops() + _twins()
+    su, fn = _mk_container_meta()
+    L.append(Op("container_metadata", su, fn, "user metadata dictionary reused for two files"))
     rec_g = dict(REC_W, fields=REC_W["fields"] + [{"name": "addr2", "type": "Addr"}, {"name": "k2", "type": "shop.Kind"}])
     su, fn = _mk_generate(rec_g)
     L.append(Op("generate_rec", su, fn, "generate_one on a parsed schema with by-name references"))
